@@ -1295,6 +1295,27 @@ class OrdEval:
         self.preds_seen = set()
         self.bad_pred = []
 
+    def rank_of(self, a):
+        """rank of an atom, or of a constant that is an extreme of the coordinate type (extremes are just orderings)"""
+        if a in self.rank:
+            return self.rank[a]
+        if a[0] == 'ci':
+            v, bits = a[1], a[2]
+            if self.kind == 'unsigned':
+                return 10 ** 6 if v == (1 << bits) - 1 else (-10 ** 6 if v == 0 else None)
+            if self.kind == 'signed':
+                return 10 ** 6 if v == (1 << (bits - 1)) - 1 else (-10 ** 6 if v == (1 << (bits - 1)) else None)
+        if a[0] == 'cf':
+            v = a[1]
+            if isinstance(v, float):
+                if v >= 3.4e38:
+                    return 10 ** 6
+                if v <= -3.4e38:
+                    return -10 ** 6
+            elif isinstance(v, str):
+                return -10 ** 6 if v.startswith('-') else 10 ** 6
+        return None
+
     def value(self, t):
         if t in self.rank:
             return t
@@ -1312,9 +1333,13 @@ class OrdEval:
             need = {'umax': 'unsigned', 'umin': 'unsigned', 'smax': 'signed', 'smin': 'signed', 'minnum': 'float', 'maxnum': 'float'}[k]
             if need != self.kind:
                 self.bad_pred.append(k)
+            if a not in self.rank or b not in self.rank:
+                return None
             if 'max' in k:
                 return a if self.rank[a] >= self.rank[b] else b
             return a if self.rank[a] <= self.rank[b] else b
+        if h in ('ci', 'cf'):
+            return t
         return None
 
     def cond(self, t):
@@ -1349,9 +1374,11 @@ class OrdEval:
             a, b = self.value(t[2]), self.value(t[3])
             if a is None or b is None:
                 return None
+            ra, rb = self.rank_of(a), self.rank_of(b)
+            if ra is None or rb is None:
+                return None
             p = t[1]
             self.preds_seen.add(p)
-            ra, rb = self.rank[a], self.rank[b]
             if p in self.EQ:
                 return self.EQ[p](ra, rb)
             table = {'signed': self.SIGNED, 'unsigned': self.UNSIGNED, 'float': self.FLOAT}[self.kind]
@@ -1465,7 +1492,7 @@ def to_poly(t, ring, atomize=None, width=None, memo=None):
                 v -= 1 << x[2]
             return Poly.const(Fraction(v) if ring == 'real' else v, mod)
         if h == 'cf':
-            if ring == 'real' and isinstance(x[1], float):
+            if ring == 'real' and isinstance(x[1], float) and x[1] == x[1] and abs(x[1]) != float('inf'):
                 return Poly.const(Fraction(x[1]), mod)
             return Poly.atom(x, mod)
         if h == 'op':
